@@ -46,7 +46,7 @@ def case_fn(c):
         fails = oracle.check_grid_search(c["model"], c["grid"], c["param_map"], c["outputs"], vectorize=c["vec"], permute=c.get("permute", False),
                                          as_frame=c.get("as_frame"), inputs=c.get("inputs"), as_path=c.get("as_path", False))
     elif kind == "dde_field":
-        fails = oracle.check_dde_field(c["model"], c["solver"], seed=c.get("seed", 0), vectorize=c.get("vec", False), dt=c.get("dt", 0.01))
+        fails = oracle.check_dde_field(c["model"], c["solver"], seed=c.get("seed", 0), vectorize=c.get("vec", False), dt=c.get("dt", 0.01), two_stage=c.get("two_stage", False))
     elif kind == "dde_run":
         fails = oracle.check_dde_run(c["model"], c["solver"], T=c.get("T", 2.0), dts=c.get("dts", 0.05), method=c.get("method"))
     elif kind == "expr_eval_seq":
